@@ -29,6 +29,12 @@ Reading used here
 * "deep enough to cover its links": a shard pin's depth is at least the number of link steps
   from the pinned node to its blocks (unbounded depth, negative, covers everything).
 * shard allocations: as for the root, the destinations that were handed the shard's blocks.
+* "delivers to the destination daemons a set of blocks ...": on success every block that was handed to the
+  adder's DAG service has been accepted (BlockPut answered without error) by at least one destination. The
+  code's stated policy is "as long as BlockPut worked in 1 destination, we move on", and the property speaks
+  of the daemons collectively ("a set of blocks"), so one accepting destination per block is what is asked
+  - not every allocated destination, which the code does not promise (a destination that failed once is
+  dropped or tolerated and still named in the pin; the pin makes it fetch what it lacks).
 * "on failure the root is not pinned": when the add reports an error no data pin and no meta
   pin was accepted (shard and cluster-DAG pins of the unfinished add may remain).
 -/
@@ -115,6 +121,7 @@ def Obs.view (o : Obs) (shard : Bool) : View :=
     shards := (pins.filter (fun p => p.type == .shardT)).map (shardViewOf o),
     cdagLinks := cdagLinksOf o pins,
     sentAll := if shard then [] else sentTo o.log (o.stream.map (·.id)),
+    delivered := allDelivered o.log o.stream,
     closure := o.closure, readback := o.readback, rootPlain := o.rootPlain, rootImporter := o.rootImporter }
 
 /-! ### the clauses -/
@@ -177,8 +184,8 @@ def shardDepthCovers (v : View) : Bool :=
 def shardAllocs (c : Cfg) (v : View) : Bool :=
   v.shards.all (fun s => allocsAreDests c.opts s.pin s.sent)
 
-/-- the clauses about pins and shards (bookkeeping), then the four content facts -/
-def bookkeeping (c : Cfg) (v : View) : List (String × Bool) :=
+/-- the clauses about pins and shards -/
+def pinClauses (c : Cfg) (v : View) : List (String × Bool) :=
   let single := v.ok && !c.shard
   let sharded := v.ok && c.shard
   [ ("root_not_pinned_on_failure", v.ok || noRootPin v),
@@ -192,6 +199,14 @@ def bookkeeping (c : Cfg) (v : View) : List (String × Bool) :=
     ("shard_under_limit", !c.shard || shardUnderLimit c v),
     ("shard_depth_covers_links", !c.shard || shardDepthCovers v),
     ("shard_allocations_are_destinations", !c.shard || shardAllocs c v) ]
+
+/-- on success the destination daemons hold every block the adder was given: each block of the stream was
+    accepted by at least one destination -/
+def deliveryClauses (v : View) : List (String × Bool) :=
+  [ ("every_block_accepted_by_a_destination", !v.ok || v.delivered) ]
+
+/-- everything the bookkeeping model speaks about -/
+def bookkeeping (c : Cfg) (v : View) : List (String × Bool) := deliveryClauses v ++ pinClauses c v
 
 def content (v : View) : List (String × Bool) :=
   [ ("closed_under_links", !v.ok || v.closure),
